@@ -267,6 +267,7 @@ func (m *locker) try(ctx context.Context, cancel context.CancelFunc, name string
 	released := int32(0)
 	acquired := int32(0)
 	failures := int32(0)
+	lost := int32(0)
 
 	done := make(chan struct{})
 	monitoring := func(err error, key string, deadline time.Time, csc chan struct{}) {
@@ -289,7 +290,13 @@ func (m *locker) try(ctx context.Context, cancel context.CancelFunc, name string
 				}
 			}
 		}
+		// The lock context must be done before any key is given up: cancel it first if losing this key costs the
+		// majority; otherwise keep the key (it is no longer extended) and delete it once the context is done.
+		if atomic.AddInt32(&lost, 1) >= m.majority {
+			cancel()
+		}
 		if !errors.Is(err, ErrNotLocked) {
+			<-ctx.Done()
 			_ = m.script(context.Background(), delkey, key, val, deadline)
 		}
 		if released := atomic.AddInt32(&released, 1); released >= m.majority {
